@@ -164,6 +164,11 @@ def f64Str (x : Float) : String :=
     let h := natToHex x.toBits.toNat
     String.ofList (List.replicate (16 - h.length) '0') ++ h
 
+def ptsF? : List Float → Option (List (Point Float))
+  | [] => some []
+  | x :: y :: t => (ptsF? t).map (fun l => ⟨x, y⟩ :: l)
+  | _ => none
+
 def step (_ : Unit) (line : String) : Unit × String :=
   let out :=
     match words line with
@@ -208,6 +213,16 @@ def step (_ : Unit) (line : String) : Unit × String :=
       match ws.mapM parseRat? with
       | some v => matOp op v
       | none => "bad-op"
+    | "pd" :: op :: ws =>  -- Contour.Bounds / Polygon.Bounds under rounding: the source form at Lean's Float, the guarded
+      -- branch of `extent` (Nextafter search, at most 4 widenings) included
+      match (splitBar ws).mapM (fun g => (g.mapM parseF64?).bind ptsF?) with
+      | some (_ :: p) =>
+        let cb := Contour.boundsSrc maxF64 (-maxF64) (widenSrc nextUpF64)
+        match op, p with
+        | "cbounds", [c] => rectStr f64Str (cb c)
+        | "pbounds", _ => rectStr f64Str (Polygon.boundsSrc maxF64 (-maxF64) (widenSrc nextUpF64) p)
+        | _, _ => "bad-op"
+      | _ => "bad-op"
     | "poly" :: op :: ws => polyOp op ws
     | _ => "bad-op"
   ((), out)
